@@ -138,6 +138,22 @@ func init() {
 	})
 }
 
+func init() {
+	props = append(props, prop{
+		ID: "C09", Title: "LevelDB store honours the LogStore/StableStore contracts", Level: "fault_enumeration",
+		LevelText:  "Generated operation sequences (batched and single appends in both encodings, StoreLogProto, range deletions of every shape, stable-store writes with keys that look like log indexes, close/reopen, JSON->protobuf conversion) are executed against the real store and an in-memory map and compared after every step through FirstIndex/LastIndex/GetLog/Get/GetUint64; in the kill unit the sequence runs in a child process that is SIGKILLed at a generated acknowledged operation and the reopened store must equal the model after some prefix not shorter than what was acknowledged.",
+		LevelNote:  "Crash points are process kills (the page cache survives); power loss is out of reach and not claimed by the code. LogCommand payloads are valid replicated messages (the conversion decodes them); indexes stay below the stablestore- key space (raft indexes start at 1 and grow by 1).",
+		Technique:  "model-based property testing (rapid) against a map model, with generated close/reopen and SIGKILL points",
+		DesignRef:  "4/C09",
+		Rule:       "case = 3-40 generated operations; non-trivial = a reopen (or kill) after a range deletion AND a stable-store write between log writes; distinct = hash of the operation list; labels give the encoding mix and how many cases convert JSON to protobuf",
+		Assumptions: []string{"payloads of LogCommand entries are robust messages (JSON or 'p'+protobuf)", "log indexes < 2^56"},
+		Units: []unit{
+			{Name: "model", Pkg: "internal/raftstore", Harness: "raftstore", Run: "^TestVerifC09$", Rapid: true, Quick: 6000, Thorough: 120000, QuickTimeoutS: 600, ThoroughTimeoutS: 3000},
+			{Name: "kill", Pkg: "internal/raftstore", Harness: "raftstore", Run: "^TestVerifC09Kill$", Rapid: true, Quick: 480, Thorough: 8000, QuickTimeoutS: 600, ThoroughTimeoutS: 3000},
+		},
+	})
+}
+
 // notApplicable lists properties that are not claimed (yet), with the reason.
 var notApplicable = map[string]string{}
 
